@@ -49,11 +49,26 @@ demo_path = os.path.join(dest, [f for f in sorted(os.listdir(dest)) if f.startsw
 # make the stored demonstration independent of the scratch location it was written in
 import re
 _t = open(demo_path).read()
-_t2 = re.sub(r'Path\(__file__\)\.resolve\(\)\.parent\.parent / "C\d\d"', 'Path(__import__("os").environ.get("AIOSWITCHER_REPO", "/repo"))', _t)
-_t2 = re.sub(r'"/tmp/wt/C\d\d/(tests|src)', r'__import__("os").environ.get("AIOSWITCHER_REPO", "/repo") + "/\1', _t2)
+_t2 = re.sub(r'Path\(__file__\)\.resolve\(\)\.parent\.parent / "C\d\d[a-z]?"', 'Path(__import__("os").environ.get("AIOSWITCHER_REPO", "/repo"))', _t)
+_t2 = re.sub(r'"/tmp/wt/C\d\d[a-z]?/(tests|src)', r'__import__("os").environ.get("AIOSWITCHER_REPO", "/repo") + "/\1', _t2)
 if _t2 != _t:
     open(demo_path, "w").write(_t2)
 os.environ["AIOSWITCHER_REPO"] = WT
+# demonstrations written by the sub-agents look for the repository next to their own directory
+# (/tmp/wt/<orig>-out/demo.py  ->  /tmp/wt/<orig>/tests/...): stage exactly that layout, pointing at OUR worktree
+orig = os.path.basename(os.path.normpath(src))
+orig = orig[:-4] if orig.endswith("-out") else orig
+stage_out = "/tmp/wt/%s-out" % orig
+stage_repo = "/tmp/wt/%s" % orig
+sh("git -C /repo worktree remove --force %s" % stage_repo)
+if os.path.islink(stage_repo):
+    os.unlink(stage_repo)
+os.makedirs("/tmp/wt", exist_ok=True)
+os.makedirs(stage_out, exist_ok=True)
+os.symlink(WT, stage_repo)
+staged_demo = os.path.join(stage_out, os.path.basename(demo_path))
+shutil.copy(demo_path, staged_demo)
+stored_demo, demo_path = demo_path, staged_demo
 try:
     base = failures(WT)
     rc0, o0 = demo(WT, demo_path)
@@ -82,6 +97,8 @@ try:
     out["caught_by"] = [k for k, v in checks.items() if v["rc"] == 1]
 finally:
     sh("git -C /repo worktree remove --force %s" % WT)
+    if os.path.islink(stage_repo):
+        os.unlink(stage_repo)
     shutil.rmtree("/tmp/vs/%s-replays" % name, ignore_errors=True)
 ok = out.get("patch_applies") and out.get("suite_failing_set_unchanged") and out.get("demo_on_clean_tree_rc") == 0 \
     and out.get("demo_with_change_rc") not in (0, None) and out.get("imports")
@@ -92,5 +109,7 @@ try:
 except Exception:
     meta = {}
 meta["verified_by_me"] = out
+meta["demo_layout"] = ("demo.py expects the repository under test at /tmp/wt/%s (or $AIOSWITCHER_REPO) and itself at "
+                       "/tmp/wt/%s-out/demo.py; tools/verify_seeded.py stages that layout") % (orig, orig)
 json.dump(meta, open(meta_p, "w"), indent=1)
 print(json.dumps(out, indent=1))
